@@ -168,29 +168,36 @@ func NewBinaryModel() *BinaryModel {
 func (m *BinaryModel) ResolveDependencies() {
 	m.Config = NewConfiguration(m.Options)
 	for _, packet := range m.Packets {
-		for _, field := range packet.Fields {
-			if of, ok := field.Attr.(*ObjectFieldAttribute); ok {
-				if of.RefPacket == nil {
-					if refPacket, exists := m.PacketsMap[of.PacketName]; exists {
-						of.RefPacket = refPacket
-					} else {
-						m.AddSyntaxError(&SyntaxError{
-							Line:   field.Line,
-							Column: field.Column,
-							Msg:    "Unknown packet type " + of.PacketName + " for field " + field.Name,
-						})
-					}
+		m.resolveFields(packet.Fields)
+	}
+}
+
+// resolveFields resolves packet references of the given fields, descending into inline objects
+func (m *BinaryModel) resolveFields(fields []*Field) {
+	for _, field := range fields {
+		if of, ok := field.Attr.(*ObjectFieldAttribute); ok {
+			if of.RefPacket == nil {
+				if refPacket, exists := m.PacketsMap[of.PacketName]; exists {
+					of.RefPacket = refPacket
+				} else {
+					m.AddSyntaxError(&SyntaxError{
+						Line:   field.Line,
+						Column: field.Column,
+						Msg:    "Unknown packet type " + of.PacketName + " for field " + field.Name,
+					})
 				}
+			} else if of.IsIner {
+				m.resolveFields(of.RefPacket.Fields)
 			}
-			if mf, ok := field.Attr.(*MatchFieldAttribute); ok {
-				for _, pair := range mf.MatchPairs {
-					if _, exists := m.PacketsMap[pair.Value]; !exists {
-						m.AddSyntaxError(&SyntaxError{
-							Line:   pair.Line,
-							Column: pair.Column,
-							Msg:    "Unknown packet type " + pair.Value + " for match key " + pair.Key,
-						})
-					}
+		}
+		if mf, ok := field.Attr.(*MatchFieldAttribute); ok {
+			for _, pair := range mf.MatchPairs {
+				if _, exists := m.PacketsMap[pair.Value]; !exists {
+					m.AddSyntaxError(&SyntaxError{
+						Line:   pair.Line,
+						Column: pair.Column,
+						Msg:    "Unknown packet type " + pair.Value + " for match key " + pair.Key,
+					})
 				}
 			}
 		}
